@@ -57,6 +57,9 @@ class Gfa(Lines,GraphOperations,RGFA):
     self._progress = None
     self._default = {"count_tag": "RC", "unit_length": 1}
     self._line_queue = []
+    # virtual lines registered while a line is being connected (None if no
+    # line is being connected); used to take them back if the line is refused
+    self._new_virtual_lines = None
     if version is None:
       self._version = None
       self._version_explanation = None
